@@ -45,6 +45,9 @@ type Reporter struct {
 	seenSig  map[string]bool
 	viol     []string // VIOLATION lines
 	knownHit []string
+	// ReplayOnly is set by a check that only re-ran one recorded violation: the evidence file of the
+	// last full run is left alone.
+	ReplayOnly bool
 
 	States      int64
 	Transitions int64
@@ -218,7 +221,9 @@ func (r *Reporter) Finish() int {
 	}
 	js, _ := json.MarshalIndent(evd, "", " ")
 	_ = os.MkdirAll(filepath.Join(VerifRoot, "evidence"), 0o755)
-	if err := os.WriteFile(filepath.Join(VerifRoot, "evidence", r.ID+".json"), js, 0o644); err != nil {
+	if r.ReplayOnly {
+		// nothing to write
+	} else if err := os.WriteFile(filepath.Join(VerifRoot, "evidence", r.ID+".json"), js, 0o644); err != nil {
 		fmt.Fprintf(os.Stderr, "cannot write evidence: %v\n", err)
 		return 2
 	}
